@@ -49,8 +49,8 @@ type Loaded struct {
 	errorStringType        types.Type
 	runtimeErrType         types.Type
 	utf8DecodeRuneInString *ssa.Function
-	visible                []string
-	visCache               map[*ssa.Function]bool
+	visible                []visRule
+	visCache               map[*ssa.Function][]string
 	overlayFiles           []string
 	srcFiles               map[string]bool
 }
@@ -234,7 +234,7 @@ func LoadPackage(repo, harnessRoot, relPkg string) (*Loaded, error) {
 		case "skipinit":
 			ld.skipInit[p.arg] = true
 		case "visible":
-			ld.visible = append(ld.visible, norm(p.arg))
+			ld.visible = append(ld.visible, visRule{norm(p.arg), p.group})
 		}
 	}
 	return ld, nil
@@ -333,33 +333,40 @@ func (ld *Loaded) intrinsicSlow(fn *ssa.Function) intrinsicFn {
 	return nil
 }
 
-// isVisible: calls at which thread mode may switch threads (//verif:visible patterns, plus sync/atomic).
-func (ld *Loaded) isVisible(fn *ssa.Function) bool {
+type visRule struct{ pattern, group string }
+
+// isVisible: calls at which thread mode may switch threads (//verif:visible[group] patterns).
+func (ld *Loaded) isVisible(fn *ssa.Function, groups map[string]bool) bool {
 	visMu.RLock()
-	v, ok := ld.visCache[fn]
+	gs, ok := ld.visCache[fn]
 	visMu.RUnlock()
-	if ok {
-		return v
-	}
-	k1, k2 := fnKey(fn)
-	v = false
-	for _, p := range ld.visible {
-		if strings.HasSuffix(p, "*") {
-			pp := strings.TrimSuffix(p, "*")
-			if strings.HasPrefix(k1, pp) || strings.HasPrefix(k2, pp) {
-				v = true
+	if !ok {
+		k1, k2 := fnKey(fn)
+		gs = []string{}
+		for _, r := range ld.visible {
+			p := r.pattern
+			hit := p == k1 || p == k2
+			if strings.HasSuffix(p, "*") {
+				pp := strings.TrimSuffix(p, "*")
+				hit = strings.HasPrefix(k1, pp) || strings.HasPrefix(k2, pp)
 			}
-		} else if p == k1 || p == k2 {
-			v = true
+			if hit {
+				gs = append(gs, r.group)
+			}
+		}
+		visMu.Lock()
+		if ld.visCache == nil {
+			ld.visCache = map[*ssa.Function][]string{}
+		}
+		ld.visCache[fn] = gs
+		visMu.Unlock()
+	}
+	for _, g := range gs {
+		if g == "" || groups[g] {
+			return true
 		}
 	}
-	visMu.Lock()
-	if ld.visCache == nil {
-		ld.visCache = map[*ssa.Function]bool{}
-	}
-	ld.visCache[fn] = v
-	visMu.Unlock()
-	return v
+	return false
 }
 
 // initOpaque: callees that package initialisers may not run (their results become opaque values).
